@@ -51,12 +51,13 @@ func (check fieldConstraints) checkRange(v val.Value, t *meta.Type) error {
 	if len(t.Range()) == 0 {
 		return nil
 	}
+	// every level of the typedef chain restricts further: all must hold
 	for _, r := range t.Range() {
-		if err := r.CheckValue(v); err == nil {
-			return nil
+		if err := r.CheckValue(v); err != nil {
+			return fmt.Errorf("'%s' is outside the required range %s", v, r)
 		}
 	}
-	return fmt.Errorf("'%s' did not match any of the required ranges", v)
+	return nil
 }
 
 func (fieldConstraints) patternCheck(s string, patterns []*meta.Pattern) error {
@@ -75,10 +76,11 @@ func (fieldConstraints) lenCheck(s string, lengths []*meta.Range) error {
 	if len(lengths) == 0 {
 		return nil
 	}
+	// every level of the typedef chain restricts further: all must hold
 	for _, length := range lengths {
-		if err := length.CheckValue(val.Int32(len(s))); err == nil {
-			return nil
+		if err := length.CheckValue(val.Int32(len(s))); err != nil {
+			return fmt.Errorf("string length outside allowed ranges. %s", s)
 		}
 	}
-	return fmt.Errorf("string length outside allowed ranges. %s", s)
+	return nil
 }
